@@ -103,7 +103,7 @@ def run_case(case):
                             out[k, :] += cc * (Es @ phi[(k + s) % nz, :])
                     return out * bz / dz
                 cplx = (dense * (1 + 0.5j) + 0.25j)
-                datas = [('const', np.full((nz, nq), 1.75)), ('dense', dense), ('dense-again', dense), ('dense-third', dense), ('strided-real-view', np.real(cplx)), ('tiny', 1e-11 * dense), ('integer-typed', np.rint(7 * dense).astype(np.int64))]      # the operator is linear in phi; the potential may be given as an integer array
+                datas = [('const', np.full((nz, nq), 1.75)), ('dense', dense), ('dense-again', dense), ('dense-third', dense), ('strided-real-view', np.real(cplx)), ('tiny', 1e-20 * dense), ('integer-typed', np.rint(7 * dense).astype(np.int64))]      # the operator is linear in phi; the potential may be given as an integer array
                 if (p, rank) in ((1, 0), (3, 2)) and i == int(lay.shape[0]) - 1:
                     for a, b in itertools.product(range(nz), range(nq)):
                         e = np.zeros((nz, nq))
